@@ -1,4 +1,4 @@
-"""R81 RAW-KEY (C13): a key taken from vnaproperty_keys() is quoted before it is spliced into a descriptor.
+"""R81 RAW-KEY (C13, C14 for the YAML exporter): a key taken from vnaproperty_keys() is quoted before it is spliced into a descriptor.
 
 "vnaproperty_quote_key turns any key string into a descriptor component that addresses exactly that key" (C13).  The
 strings returned by vnaproperty_keys() are the raw keys; a key such as `my.key`, `port[1]` or `x=y` spliced unquoted
@@ -22,6 +22,8 @@ def run(P, tier="quick"):
         if f.body is None or not f.calls("vnaproperty_keys"):
             continue
         cn = Canon(f)
+        # the YAML exporter's look-ups also carry C14 (export/import fidelity of keys)
+        props = PROPS + ("C14",) if any((c.callee or "").startswith("yaml_document_") for c in f.calls()) else PROPS
         # arrays holding a keys() result
         arrays = set()
         for m in f.walk():
@@ -68,12 +70,12 @@ def run(P, tier="quick"):
                 n += 1
                 key = "R81|%s|%s|keyarg:%s#%d" % (f.file, f.name, c.callee, n)
                 if raw(a):
-                    R.violated(Finding("R81", PROPS, f.file, f.name, "rawkey:%s" % c.callee,
+                    R.violated(Finding("R81", props, f.file, f.name, "rawkey:%s" % c.callee,
                                        "`%s` splices the raw key `%s` from vnaproperty_keys() into a descriptor: a key that contains "
                                        "`.`, `[`, `=`, `#`, a backslash or a trailing blank addresses a different node; it must go "
                                        "through vnaproperty_quote_key first" % (c.text()[:60], a.text()[:20]), c.line))
                 else:
-                    R.ok(key, PROPS)
+                    R.ok(key, props)
     R.counts["descriptor_key_arguments"] = n
     if n < 2:
         raise AnalysisBroken("R81: only %d variadic descriptor arguments found in functions that enumerate keys" % n)
